@@ -55,19 +55,38 @@ func CacheWriteDiscipline(p *core.Program, r *core.Report, rule string) {
 			r.Bad(rule, construct, pos, "the verdict is stored under ("+strings.Join(got, ",")+") but was looked up under ("+strings.Join(want, ",")+")")
 			continue
 		}
-		// the statement after the store returns the stored value with a nil error
+		// after the store, every path to a return returns the stored value with a nil error (no other return, no
+		// second store in between)
 		val := cs.Call.Args[len(cs.Call.Args)-1]
-		st := enclosingStmt(fd.Decl.Body, cs.Call.Pos())
-		next := nextStmt(fd.Decl.Body, st)
-		ret, isRet := next.(*ast.ReturnStmt)
-		ok := false
-		why := "the store is not immediately followed by the return of the stored value"
-		if isRet && len(ret.Results) == 2 && core.IsNil(info, ret.Results[1]) {
-			if core.ExprStr(ret.Results[0]) == core.ExprStr(val) {
-				ok = true
-			} else {
+		ok := true
+		why := ""
+		seenExit := false
+		w := facts.NewWalker(info)
+		w.Transfer = func(st int, n ast.Node, f facts.Formula) int {
+			if n == ast.Node(cs.Call) {
+				return 1
+			}
+			return st
+		}
+		w.OnExit = func(st int, ret *ast.ReturnStmt, f facts.Formula) {
+			if st != 1 || w.FuncLitDepth > 0 {
+				return
+			}
+			seenExit = true
+			if ret == nil || len(ret.Results) != 2 || !core.IsNil(info, ret.Results[1]) {
+				ok = false
+				why = "after the store the function can return something other than (stored value, nil)"
+				return
+			}
+			if core.ExprStr(ret.Results[0]) != core.ExprStr(val) {
+				ok = false
 				why = "the function stores " + core.ExprStr(val) + " but returns " + core.ExprStr(ret.Results[0])
 			}
+		}
+		w.WalkBody(fd.Decl.Body, nil)
+		if !seenExit {
+			ok = false
+			why = "no return follows the store"
 		}
 		// the key variables are not reassigned between lookup and store (parameters and single-assignment locals)
 		r.Check(ok, rule, construct, pos, "stored under the lookup key and returned as the answer", why)
@@ -83,15 +102,21 @@ func CacheWriteDiscipline(p *core.Program, r *core.Report, rule string) {
 		if as != nil && len(as.Lhs) == 2 {
 			hit, _ := as.Lhs[0].(*ast.Ident)
 			val, _ := as.Lhs[1].(*ast.Ident)
-			next := nextStmt(fd.Decl.Body, as)
-			if ifs, isIf := next.(*ast.IfStmt); isIf && hit != nil && val != nil {
-				if id, isID := ast.Unparen(ifs.Cond).(*ast.Ident); isID && info.ObjectOf(id) == info.ObjectOf(hit) && len(ifs.Body.List) == 1 {
-					if ret, isRet := ifs.Body.List[0].(*ast.ReturnStmt); isRet && len(ret.Results) == 2 {
-						if rid, isRID := ast.Unparen(ret.Results[0]).(*ast.Ident); isRID && info.ObjectOf(rid) == info.ObjectOf(val) && core.IsNil(info, ret.Results[1]) {
-							ok = true
+			if hit != nil && val != nil {
+				ast.Inspect(fd.Decl.Body, func(n ast.Node) bool {
+					ifs, isIf := n.(*ast.IfStmt)
+					if !isIf || ifs.Pos() < as.End() {
+						return true
+					}
+					if id, isID := ast.Unparen(ifs.Cond).(*ast.Ident); isID && info.ObjectOf(id) == info.ObjectOf(hit) {
+						if ret := LastReturn(ifs.Body); ret != nil && len(ret.Results) == 2 {
+							if rid, isRID := ast.Unparen(ret.Results[0]).(*ast.Ident); isRID && info.ObjectOf(rid) == info.ObjectOf(val) && core.IsNil(info, ret.Results[1]) {
+								ok = true
+							}
 						}
 					}
-				}
+					return true
+				})
 			}
 		}
 		r.Check(ok, rule, fd.Key()+": a cache hit returns the cached verdict unchanged", p.Pos(cs.Call.Pos()), "", "the cached value is transformed or ignored on a hit")
